@@ -432,7 +432,7 @@ func genScenario(g *Gen, pf scnProfile) Case {
 			if g.Chance(15, 100) {
 				// two mounts by hand on an import mountpoint and on a directory below it, after a
 				// mount of the layer: made in the order below-then-on, the second one covers the
-				// first (a hidden submount; before fix 05db66c umount failed there: the kernel refuses
+				// first (a hidden submount; before fix e546b99 umount failed there: the kernel refuses
 				// the unmount of the covered mountpoint); in the order on-then-below nothing is hidden
 				mp := build + g.Pick("/mnt/host", "/dev", "/var/cache/binpkgs", "/mnt/gen", "")
 				below := mp + g.Pick("/sub", "/sub", "/pts", "/x/y")
